@@ -37,6 +37,9 @@ META = dict(
 )
 
 
+FILLER = "Filler sentence number %d goes on for a while so that the paragraph takes some room on the page and wraps around at least once or twice.\n\n"
+
+
 @st.composite
 def collections(draw):
     rng = draw(st.randoms(use_true_random=False))
@@ -86,9 +89,23 @@ def collections(draw):
                 extra.append('{| class="wikitable"\n|-\n| [[%s|thumb|cell caption %s]] || %s\n|-\n| x || y\n|}' % (fname, cw, ow))
                 expected += [cw, ow]
         src = src + "\n\n" + "\n\n".join(extra) + "\n"
+        if nimg and draw(st.integers(0, 2)) == 0:
+            # a float block: 1-3 thumbnails directly followed by a paragraph, after 0-12 filler paragraphs (its place on the page varies)
+            nthumbs = draw(st.integers(1, 3))
+            lines = []
+            for _ in range(nthumbs):
+                cw = w()
+                lines.append("[[File:Img%d.png|thumb|caption %s]]" % (draw(st.integers(1, nimg)), cw))
+                expected.append(cw)
+            bw, aw = w(), w()
+            body = bw + (" and some more words of body text" * draw(st.sampled_from([0, 0, 3, 40])))
+            expected += [bw, aw]
+            block = "".join(FILLER % j for j in range(draw(st.integers(0, 12)))) + "== Float block ==\n" + "\n".join(lines) + "\n" + body + "\n\n== After ==\n" + aw + "\n\n"
+            src = block + src if draw(st.booleans()) else src + "\n\n" + block
         arts.append(dict(title="Article %d" % (i + 1), src=src, expected=expected))
     chapters = draw(st.booleans()) and narts > 1
-    return dict(articles=arts, templates=templates, images=["File:Img%d.png" % (k + 1) for k in range(nimg)], chapters=chapters)
+    sizes = {"File:Img%d.png" % (k + 1): draw(st.sampled_from([[120 + 40 * k, 80], [120 + 40 * k, 80], [200, 300], [150, 600], [900, 200]])) for k in range(nimg)}
+    return dict(articles=arts, templates=templates, images=["File:Img%d.png" % (k + 1) for k in range(nimg)], image_sizes=sizes, chapters=chapters)
 
 
 def build_archive(case, base):
@@ -120,9 +137,10 @@ def build_archive(case, base):
     for k, title in enumerate(case["images"]):
         pid += 1
         fs.write_pages({"pages": {str(pid): {"title": title, "ns": 6, "revisions": [{"*": "description {{PD}} [[User:Painter]]"}]}}})
-        Image.new("RGB", (120 + 40 * k, 80), (200, 30 + 90 * k, 30)).save(fs.get_imagepath(title), "PNG")
+        iw, ih = case.get("image_sizes", {}).get(title, (120 + 40 * k, 80))
+        Image.new("RGB", (iw, ih), (200, 30 + 90 * k, 30)).save(fs.get_imagepath(title), "PNG")
         fs.set_db_key("imageinfo", title, {"url": "http://example.org/images/%s" % title[5:], "descriptionurl": "http://example.org/wiki/" + title,
-                                           "width": 120 + 40 * k, "height": 80, "size": 300})
+                                           "width": iw, "height": ih, "size": 300})
         fs.set_db_key("authors", title, ["Painter"])
     fs.write_redirects({})
     fs.write_licenses([])
@@ -356,6 +374,10 @@ def run_shard(ctx):
             labels.append("images")
         if any("{{Tmpl" in a["src"] for a in case["articles"]):
             labels.append("template-call")
+        if any("== Float block ==" in a["src"] for a in case["articles"]):
+            labels.append("float-block")
+        if any(h > 250 for _, h in case.get("image_sizes", {}).values()):
+            labels.append("tall-image")
         nt = bool(set(labels) & {"multi-article", "images", "template-call"})
         if nt:
             labels.append("nontrivial")
